@@ -179,6 +179,10 @@ def run(ctx):
     for f in sorted(common.CORPUS.glob("C07-*.json")):
         inputs.append(("gen-corpus:" + f.name, json.loads(f.read_text())["replay"]["pdb"]))
     inputs += [(n, t) for n, t in pdbgen.test_files(["1HPX", "sample-issue-140", "conf-alt-AB"] if ctx.quick() else ["1HPX", "3SGB", "4DFR", "sample-issue-140", "conf-alt-AB", "conf-model-mutant"])]
+    # a ligand whose recognition counts bonded atoms (an amidinium carbon with two terminal nitrogens): under --protonate-all the
+    # nitrogens carry their hydrogens before the groups are extracted
+    bl, _ = pdbgen.multichain(rnd, nchains=1)
+    inputs.append(("gen-benzamidine", pdbgen.text(pdbgen.add_benzamidine(bl))))
     # incomplete residues (the hetero atoms at the end of a side chain are gone): --protonate-all must still change nothing
     for i in range(2 if ctx.quick() else 30):
         lines, ids = pdbgen.multichain(rnd, nchains=1)
